@@ -479,3 +479,31 @@ class ReadAcrossLinkGuards:
 
     def ensures_passes_only_when_both_are_word_aligned(address, length_bytes):
         return address % 4 == 0 and length_bytes % 4 == 0
+
+
+# ---- the pack characters of the struct files ---------------------------------------------------------------------------------------
+from pyvc.spec import lemma   # noqa: E402,F811
+from pyvc.values import TInt   # noqa: E402,F811
+from rig.machine_control.struct_file import perl_to_python_packs   # noqa: E402
+
+# the struct files describe fields with Perl pack characters (perldoc -f pack): A text, c / C signed / unsigned char,
+# v / V unsigned 16 / 32 bit little-endian.  width in bytes, 1 = signed
+PERL_PACKS = {b"A": (1, 0), b"c": (1, 1), b"C": (1, 0), b"v": (2, 0), b"V": (4, 0)}
+PYTHON_PACKS = {b"s": (1, 0), b"b": (1, 1), b"B": (1, 0), b"h": (2, 1), b"H": (2, 0), b"i": (4, 1), b"I": (4, 0), b"l": (4, 1), b"L": (4, 0)}
+
+
+@lemma("perl_pack_characters_keep_width_and_signedness")
+class PerlPacks:
+    """the table that turns the struct files' Perl pack characters into Python's (the real table, read from the module): every
+    character keeps its width and its signedness - so a struct field is read and written over exactly its own bytes, and values
+    of 0x8000 and above of an unsigned field are not refused or sign-flipped"""
+    properties = ("C07",)
+    params = dict(i=TInt(0, 4))
+
+    def claim(i):
+        return PERL_TABLE_IS_FAITHFUL
+
+
+# (a finite, concrete table: compared here, natively, with the real module's table on every run)
+PERL_TABLE_IS_FAITHFUL = (sorted(perl_to_python_packs) == sorted(PERL_PACKS)
+                          and all(PYTHON_PACKS.get(perl_to_python_packs[k]) == PERL_PACKS[k] for k in PERL_PACKS))
